@@ -18,7 +18,9 @@ CHECKS["C05"] = dict(
    design="6/C05")
 SIM_NOTE = ("Trusted: the backend reference model (vcheck/sim/backend.py, wire forms built independently of the SDK codecs), "
             "the virtual primitives (self-test), operation positions recovered from harness-assigned operation names. "
-            "Bounds (program sizes, crash/pagination/scheduling deviation budgets) are listed in the evidence.")
+            "Bounds (program sizes, crash/pagination/scheduling deviation budgets) are listed in the evidence; the shapes, value "
+            "alphabets, fault menus, duration grids, stall and late-timer options added after the seeded-change waves "
+            "(DESIGN.md 12.5) are part of the explored space and the evidence file's bounds text is the authoritative list.")
 SIM_TECH = "stateless model checking of the implementation: exhaustive enumeration of crash points, pagination modes, delivery orders and scheduling deviations over a bounded program corpus, against a backend reference model"
 CHECKS["C01"] = dict(
    text="Every execution of a bounded corpus of workflow programs (all <=2-unit sequences over 14 operation kinds, <=3 over a reduced set, nested shapes) is explored through the production entry point against a stateful backend model, with every single crash point, every pagination mode of each re-invocation, three scheduler policies and +1 scheduling deviation on concurrent shapes; oracle: no user function is entered while the backend holds a terminal record for its operation (except ReplayChildren contexts), and calls at completed positions deliver the recorded outcome.",
